@@ -278,7 +278,41 @@ def run(tier: str) -> int:
                     ninst += 1
                 except Exception as ex:
                     rep.violation(f"installed schema {ref.name}: {type(ex).__name__}: {str(ex)[:200]} for {obj}", {"schema": ref.name, "obj": obj})
-        rep.parts["installed_schemas"] = {"schemas_with_instances": len(inst_pool), "instances": ninst}
+        # ... and instances generated from the field types of every installed schema (pydantic decides which boundary
+        # candidates a leaf type admits; the class itself validates the whole instance)
+        from . import geninst
+        ngen = nsch = 0
+        grng = random.Random(seed)
+        for ref in sorted(schemas.keys(), key=str):
+            if ref.name == "core.packerinfo":
+                continue   # cannot be instantiated at the pinned commit (unresolved forward reference; see DESIGN)
+            cls = schemas._get_unsafe(ref.name, ref.version)
+            objs = geninst.instances(cls, grng, 25 if quick else 250)
+            nsch += bool(objs)
+            for x in objs:
+                ngen += 1
+                rep.nontrivial.add(ref.name + x.json())
+                try:
+                    raw = bytes(x)
+                    for nm, data in {"json": x.json(), "bytes": raw, "yaml": x.yaml()}.items():
+                        back = cls.parse_raw(data)
+                        if back != x or type(back) is not cls:
+                            rep.violation(f"installed schema {ref.name}: {nm} round trip changed the generated instance {x.json()[:300]}",
+                                          {"schema": ref.name, "obj": json.loads(x.json()), "form": nm})
+                        elif bytes(back) != raw:
+                            rep.violation(f"installed schema {ref.name}: second round trip via {nm} is not stable for {x.json()[:300]}",
+                                          {"schema": ref.name, "obj": json.loads(x.json()), "form": nm})
+                    for cn, cv in cls.__constants__.items():
+                        if x.json_dict().get(cn) != json.loads(json.dumps(cv)):
+                            rep.violation(f"installed schema {ref.name}: constant {cn} not dumped", {"schema": ref.name})
+                except Exception as ex:
+                    rep.violation(f"installed schema {ref.name}: {type(ex).__name__}: {str(ex)[:200]} for generated {x!r:.300}",
+                                  {"schema": ref.name})
+        rep.evaluations += ngen
+        rep.parts["installed_schemas"] = {"schemas_with_instances": len(inst_pool), "instances": ninst,
+                                          "schemas_with_generated_instances": nsch, "generated_instances": ngen}
+        if nsch < 10 or ngen < 100:
+            rep.machinery(f"vacuous: generated instances for {nsch} installed schemas ({ngen} instances)")
         if n < 200 or ninst < 5:
             rep.machinery(f"vacuous: {n} generated cases, {ninst} installed-schema instances")
     except common.MachineryError as e:
